@@ -253,10 +253,12 @@ var (
 	warmPriv stded.PrivateKey
 )
 
-func warm(msg []byte) {
+func warm(msg []byte) bool {
 	warmOnce.Do(func() { warmPriv = stded.NewKeyFromSeed(bytes.Repeat([]byte{0x17}, 32)) })
 	sig := stded.Sign(warmPriv, msg)
-	_ = mc.Catch(func() { ed.Verify(ed.PublicKey(warmPriv[32:]), msg, sig) })
+	ok := false
+	_ = mc.Catch(func() { ok = ed.Verify(ed.PublicKey(warmPriv[32:]), msg, sig) })
+	return ok
 }
 
 func checkVerify(pub, msg, sig []byte) (*mc.Viol, string, bool) {
@@ -264,6 +266,12 @@ func checkVerify(pub, msg, sig []byte) (*mc.Viol, string, bool) {
 	var got bool
 	pn := mc.Catch(func() { got = ed.Verify(ed.PublicKey(pub), msg, sig) })
 	cls := rejectClass(pub, sig)
+	// and whatever this verification leaves behind must not spoil the next one: an honest signature
+	// over the same message is verified right after it (twice: pooled state may come back on the second call)
+	if pn == "" && (!warm(msg) || !warm(msg)) {
+		return &mc.Viol{Sig: "Verify rejects an honest signature right after another verification (class of the earlier one: " + cls + ")",
+			What: fmt.Sprintf("earlier verification: pub=%x msg=%x sig=%x", pub, msg, sig)}, "differs", true
+	}
 	if pn != "" {
 		return &mc.Viol{Sig: "Verify panics with a 32-byte public key: " + trunc(pn, 60), What: fmt.Sprintf("pub=%x msg=%x sig=%x: %s", pub, msg, sig, pn)}, "panic", true
 	}
